@@ -20,16 +20,16 @@ PROPS = {
     "C04": dict(modules=[], ties=[], streams=["score"]),
     "C05": dict(modules=[], ties=[], streams=["score"]),
     "C06": dict(modules=["Cvss.Props.C06v2", "Cvss.Props.C06v3", "Cvss.Props.C06v4"], ties=["Cvss.Model.SrcTie"], streams=["parse"]),
-    "C07": dict(modules=[], ties=[], streams=["obj"]),
+    "C07": dict(modules=["Cvss.Props.C07v4"], ties=[], streams=["obj"]),
     "C08": dict(modules=["Cvss.Props.C08v2", "Cvss.Props.C08v3", "Cvss.Props.C08v4"], ties=["Cvss.Model.SrcTie"], streams=["parse", "obj"]),
-    "C09": dict(modules=[], ties=[], streams=["obj", "parse"]),
+    "C09": dict(modules=["Cvss.Props.C09v4"], ties=[], streams=["obj", "parse"]),
     "C10": dict(modules=[], ties=[], streams=["score"]),
     "C11": dict(modules=[], ties=[], streams=["score"]),
     "C12": dict(modules=[], ties=[], streams=["score"]),
     "C13": dict(modules=["Cvss.Props.C13v2", "Cvss.Props.C13v3", "Cvss.Props.C13v4"], ties=["Cvss.Model.SrcTie"], streams=["parse"]),
-    "C14": dict(modules=[], ties=["Cvss.Model.SrcTie"], streams=["race", "obj"]),
+    "C14": dict(modules=["Cvss.Props.C14"], ties=["Cvss.Model.SrcTie"], streams=["race", "obj"]),
     "C15": dict(modules=["Cvss.Props.C15"], ties=[], streams=["rating"]),
-    "C16": dict(modules=[], ties=[], streams=["obj"]),
+    "C16": dict(modules=["Cvss.Props.C16"], ties=[], streams=["obj"]),
     "C17": dict(modules=[], ties=[], streams=["obj", "alloc"]),
     "C18": dict(modules=["Cvss.Props.C18v2", "Cvss.Props.C18v3", "Cvss.Props.C18v4", "Cvss.Findings.C18v2"], ties=["Cvss.Model.SrcTie"], streams=["defect", "obj", "parse"]),
 }
